@@ -2,7 +2,8 @@
    Statements only; every proof is `exact <lemma from Proofs/>`. *)
 From Coq Require Import ZArith List QArith Qcanon.
 From Batchie Require Import Lib.Sexp Lib.Num Model.Chunks Model.DistMat Model.Mse
-  Proofs.C07Chunks Proofs.C07DistMat Proofs.C07Mse Proofs.C07Src Generated.SrcArith.
+  Proofs.C07Chunks Proofs.C07DistMat Proofs.C07Mse Proofs.C07Src Generated.SrcArith
+  Lib.PyRt Generated.SrcChunks Proofs.C07Source.
 Import ListNotations.
 
 (* the chunk arithmetic the theorems are about IS the source's arithmetic: src_chunk_bounds is
@@ -11,6 +12,15 @@ Theorem C07_model_is_source_arithmetic : forall n k c,
   n_lower n = src_n_lower n /\ chunk_bounds (n_lower n) k c = src_chunk_bounds n k c.
 Proof. intros n k c. split; [exact (n_lower_is_source n)|exact (chunk_bounds_is_source n k c)]. Qed.
 Print Assumptions C07_model_is_source_arithmetic.
+
+(* ... and the enumeration the chunks are cut from IS the source's generator: src_lower_triangular_indices is the
+   whole generator function lower_triangular_indices re-translated on every run (harness/py2gal.py; a generator
+   denotes the list of the values it yields, in order); for n <= 0 it yields nothing *)
+Theorem C07_model_is_source_enumeration :
+  (forall n : nat, src_lower_triangular_indices (Z.of_nat n) = Ok (map zpair (lower_tri n))) /\
+  (forall n : Z, n <= 0 -> src_lower_triangular_indices n = Ok []).
+Proof. exact (conj src_lower_tri_is_model src_lower_tri_negative). Qed.
+Print Assumptions C07_model_is_source_enumeration.
 
 (* the chunks, concatenated in index order, are the enumeration of all pairs i>j *)
 Theorem C07_chunks_partition : forall n c, (0 < c)%nat -> concat (all_chunks n c) = lower_tri n.
